@@ -53,6 +53,8 @@ structure Tables where
   sub   : Array (Array Bool)
   types : Array (Bool × Kind × List Ty)
   pkgs  : Array PkgDef
+  /-- `Ctx.exportRenamesDefinition`, probed from the implementation -/
+  renames : Bool
 
 def Tables.name (t : Tables) (i : Nat) : Str := (t.names[i]?.map (·.1)).getD ['?']
 
@@ -67,6 +69,7 @@ def Tables.ctx (t : Tables) : Ctx where
   tyKind ty := (t.types[ty]?.map (·.2.1)).getD 0
   validExtern s := ((t.names.toList.find? (fun p => p.1 == s)).map (·.2.1)).getD false
   validExport s := ((t.names.toList.find? (fun p => p.1 == s)).map (·.2.2)).getD false
+  exportRenamesDefinition := t.renames
 
 def pTables : P Tables := do
   let names ← counted (do
@@ -103,7 +106,9 @@ def pTables : P Tables := do
       let k ← nat
       pure (nm a, k))
     pure ({ name := nm n, version := v.map nm, imports := im, instKind := ik } : PkgDef))
-  pure { names := names, kinds := kinds.toArray, sub := sub.toArray, types := types.toArray, pkgs := pkgs.toArray }
+  let renames ← nat
+  pure { names := names, kinds := kinds.toArray, sub := sub.toArray, types := types.toArray, pkgs := pkgs.toArray,
+         renames := renames == 1 }
 
 def pOp (t : Tables) : P Op := do
   let c ← tok
